@@ -225,6 +225,52 @@ Definition reentry_result (op frame n : Z) : list Z :=
 Definition reentry_local (op frame n : Z) : list Z :=
   if frame =? 5 then (if op =? 5 then s_set n else s_gs s_global) else s_gs (frame_tag frame).
 
+(* which object a call made through the API must run with as this.
+   src: 0 identifier  1 holder.f  2 holder["f"]  3 deep.a.f  4 an expression evaluating to the function
+   this (the Go argument): 0 the untyped nil (Otto.Call only: "derive this from the source")
+     1 otto.UndefinedValue()  2 otto.Value{}  3 the undefined result of an earlier Run  4 a typed nil pointer
+     5 otto.NullValue()  6 "str"  7 the number 7  8 true  9 the holder object (Value)  10 deep.a (pointer to otto.Object)
+   receiver: 0 the global object, 1 holder, 2 deep.a, 3 a wrapper of the primitive *)
+Definition call_receiver (src this : Z) : Z :=
+  if this =? 0 then (if (src =? 1) || (src =? 2) then 1 else if src =? 3 then 2 else 0)
+  else if this <=? 5 then 0              (* undefined and null: the global object (non-strict callee) *)
+  else if this <=? 8 then 3
+  else if this =? 9 then 1 else 2.
+Definition call_this_tag (src this : Z) : list Z :=
+  let r := call_receiver src this in
+  if r =? 0 then [71]
+  else if r =? 1 then [111; 98; 106; 101; 99; 116; 58; 72; 79; 76; 68; 69; 82]
+  else if r =? 2 then [111; 98; 106; 101; 99; 116; 58; 68; 69; 69; 80; 65]
+  else if this =? 6 then [111; 98; 106; 101; 99; 116; 58; 115; 116; 114] else if this =? 7 then [111; 98; 106; 101; 99; 116; 58; 55] else [111; 98; 106; 101; 99; 116; 58; 116; 114; 117; 101].
+(* the callee adds k to this.n: [holder.n; deep.a.n; global n] afterwards (all reset to 0 before) *)
+Definition call_effect (src this k : Z) : list Z :=
+  let r := call_receiver src this in
+  [if r =? 1 then k else 0; if r =? 2 then k else 0; if r =? 0 then k else 0].
+
+(* script object graphs (objects may refer to each other, also in cycles) and Value.export on them:
+   the recursion of export follows every reference; [None] = the fuel did not suffice *)
+Inductive hval := HNum (n : Z) | HRef (i : nat).
+Definition heap := list (list (list Z * hval)).
+Inductive gtree := GLeaf (n : Z) | GNode (l : list (list Z * gtree)).
+Fixpoint gexport (fuel : nat) (h : heap) (v : hval) : option gtree :=
+  match fuel with
+  | O => None
+  | S f =>
+      match v with
+      | HNum n => Some (GLeaf n)
+      | HRef i =>
+          option_map GNode
+            ((fix go (l : list (list Z * hval)) : option (list (list Z * gtree)) :=
+                match l with
+                | [] => Some []
+                | (k, x) :: r => match gexport f h x, go r with
+                                 | Some y, Some ys => Some ((k, y) :: ys)
+                                 | _, _ => None
+                                 end
+                end) (nth i h []))
+      end
+  end.
+
 Inductive case :=
 | CExport (path : Z) (g : gscalar) (obs : ob gscalar)
 | CToFloat (path : Z) (g : gscalar) (onum : Z) (obs : ob Z)
@@ -274,6 +320,11 @@ Inductive case :=
 (* ref: the same operation at rest (for Eval: the in-language eval in the same frame); reent: from the native
    callback; local: the frame's own gs afterwards *)
 | CReentry (op frame n : Z) (ref reent local : ob (list Z))
+(* api 0 Otto.Call(src, this, args...), 1 Value.Call(this, args...) on the function the source evaluates to;
+   obs: what the callee saw (this tag, args); eff: [holder.n; deep.a.n; global n] after the callee added k to this.n *)
+| CCallThis (api src this k : Z) (args : list gscalar) (obs_api obs_lang : ob (list (list Z))) (eff_api eff_lang : list Z)
+(* Export of a cyclic object graph, run in a child process: 0 = returned, 1 = the process died (fatal stack overflow) *)
+| CCyclic (shape : Z) (obs : Z)
 (* a sequence of calls made through the Go API against the same sequence made in-language *)
 | CCallSeq (steps : list cstep) (obs_api obs_lang : list (ob (list (list Z))))
 (* histories of writes and reads of bindings: store 0 = global names (Otto.Set/Get), 1 = properties of a
@@ -441,6 +492,16 @@ Definition verdict_callseq (steps : list cstep) (obs_api obs_lang : list (ob (li
 Definition verdict (c : case) : Z * Z :=
   match c with
   | CCallSeq steps a l => verdict_callseq steps a l
+  | CCallThis _ src this k args oa ol ea el =>
+      let exp := OVal (call_this_tag src this :: [Z.of_nat (length args)] :: map arg_desc args) in
+      let eff := call_effect src this k in
+      judge (fun a b : ob (list (list Z)) * ob (list (list Z)) * (list Z * list Z) =>
+               ob_eqb zll_eqb (fst (fst a)) (fst (fst b)) && ob_eqb zll_eqb (snd (fst a)) (snd (fst b)) &&
+               zlist_eqb (fst (snd a)) (fst (snd b)) && zlist_eqb (snd (snd a)) (snd (snd b)))
+            (oa, ol, (ea, el)) (exp, exp, (eff, eff)) (exp, exp, (eff, eff)) 0
+  (* class 8: Export follows references without remembering where it has been: on a cycle it never
+     returns (the Go stack overflows, which cannot be recovered) *)
+  | CCyclic _ obs => judge Z.eqb obs 1 0 8
   | CProtoObj _ own exp keys js =>
       let m := of_res (export_m (JObj own)) in
       let k := OVal (map fst own) in
